@@ -94,10 +94,55 @@ func NewMultiTermSearcherBytes(ctx context.Context, indexReader index.IndexReade
 		options, limit)
 }
 
+// termOrMultiTermSearcher completes the searchers that expand one term into
+// the matching terms of the dictionary (prefix, fuzzy). mts is the multi term
+// searcher over the numTerms terms found. When clauses were left out of it
+// because only deleted documents hold their terms, and what is left is
+// nothing or the term itself, this is the plain term query, exactly as if
+// those terms had not been found in the dictionary.
+func termOrMultiTermSearcher(ctx context.Context, indexReader index.IndexReader,
+	mts search.Searcher, numTerms int, term string, field string, boost float64,
+	options search.SearcherOptions) (search.Searcher, error) {
+	d, ok := mts.(*DisjunctionSliceSearcher)
+	if !ok || d.numSearchers > 1 || d.numSearchers == numTerms {
+		return mts, nil
+	}
+	ts, err := NewTermSearcher(ctx, indexReader, term, field, boost, options)
+	if err != nil {
+		_ = mts.Close()
+		return nil, err
+	}
+	if d.numSearchers == 1 && ts.Count() == 0 {
+		// the term left is another one
+		_ = ts.Close()
+		return mts, nil
+	}
+	_ = mts.Close()
+	return ts, nil
+}
+
 func newMultiTermSearcherInternal(ctx context.Context, indexReader index.IndexReader,
 	searchers []search.Searcher, field string, boost float64,
 	options search.SearcherOptions, limit bool) (
 	search.Searcher, error) {
+
+	if options.Score != "none" {
+		// The terms come from the term dictionaries, which keep the terms
+		// of deleted documents until a merge drops them. Such a term has
+		// no live posting and cannot match, but as a clause it would take
+		// part in the query norm and in the coord factor, and the score
+		// of the live documents would depend on whether the deleted ones
+		// have been merged away yet. Leave those terms out.
+		live := searchers[:0]
+		for _, s := range searchers {
+			if s.Count() == 0 {
+				_ = s.Close()
+				continue
+			}
+			live = append(live, s)
+		}
+		searchers = live
+	}
 
 	// build disjunction searcher of these ranges
 	searcher, err := newDisjunctionSearcher(ctx, indexReader, searchers, 0, options,
